@@ -99,11 +99,15 @@ def stepInsn (s : TState) (parts : List Beh) : TState × List (Option Output) :=
   let (s', outs) := stepInsnParts s parts
   (if Gen.insnResetInFinally then tReset s' else s', outs)
 
-/-- compile_sub_routine: a fresh transformer; only class-level state (preds) is shared. -/
+/-- `preds_written` is shared between instances only while it is a class-level list that no `__init__` shadows
+    (regenerated facts). -/
+def predsShared : Bool :=
+  Gen.extClassAttrs.any (fun a => a.1 == "preds_written") && !(Gen.extInitAttrs.contains "preds_written")
+
 def stepSub (s : TState) (b : Beh) : TState × List (Option Output) :=
   if Gen.subRoutineFreshTransformer then
-    let (t, out) := runBeh { TState.fresh with flags := { on := [], preds := s.flags.preds } } b
-    ({ s with flags := { s.flags with preds := t.flags.preds } }, [out])
+    let (t, out) := runBeh { TState.fresh with flags := { on := [], preds := if predsShared then s.flags.preds else [] } } b
+    ({ s with flags := { s.flags with preds := if predsShared then t.flags.preds else s.flags.preds } }, [out])
   else
     let (s', out) := runBeh s b
     (s', [out])
